@@ -52,38 +52,34 @@ Proof. repeat split.
 Qed.
 
 (* NormalEquationsInversion.setup: the operator / data it assembles are the
-   documented N and rhs.  _partial: the code adds epsI^2 I only `if epsI > 0`,
-   so the statement needs  epsI > 0  or  epsI^2 = 0  (see _refuted below). *)
-Theorem C12_assembly_normal_correct_partial :
-  forall (S : StarRing) (posb : S -> bool) (P : lsq S) (x : list S), wfP S P ->
-    (posb (p_epsI S P) = true \/ sq S (p_epsI S P) = r0 S) -> length x = p_n S P ->
-    op_normal_code S posb P x = mv S (Nmat S P) x /\ y_normal_code S P = rhs S P.
+   documented N and rhs, for every problem and every epsI (the code adds
+   epsI^2 I `if epsI != 0`; nzb is that test, sound in the sense that it only
+   answers false on 0). *)
+Theorem C12_assembly_normal_correct :
+  forall (S : StarRing) (nzb : S -> bool), (forall a, nzb a = false -> a = r0 S) ->
+  forall (P : lsq S) (x : list S), wfP S P -> length x = p_n S P ->
+    op_normal_code S nzb P x = mv S (Nmat S P) x /\ y_normal_code S P = rhs S P.
 Proof. exact assembly_normal_correct. Qed.
-Print Assumptions C12_assembly_normal_correct_partial.
-Theorem C12_assembly_normal_columns_partial :
-  forall (S : StarRing) (posb : S -> bool) (P : lsq S) j, wfP S P ->
-    (posb (p_epsI S P) = true \/ sq S (p_epsI S P) = r0 S) -> (j < p_n S P)%nat ->
-    op_normal_code S posb P (unit S (p_n S P) j) = col S j (Nmat S P).
+Print Assumptions C12_assembly_normal_correct.
+Theorem C12_assembly_normal_columns :
+  forall (S : StarRing) (nzb : S -> bool), (forall a, nzb a = false -> a = r0 S) ->
+  forall (P : lsq S) j, wfP S P -> (j < p_n S P)%nat ->
+    op_normal_code S nzb P (unit S (p_n S P) j) = col S j (Nmat S P).
 Proof. exact assembly_normal_columns. Qed.
-Print Assumptions C12_assembly_normal_columns_partial.
-(* with a negative epsI the documented epsI^2 I is silently dropped *)
+Print Assumptions C12_assembly_normal_columns.
+(* the hypotheses are met by the executed instances (Qc, Gaussian Qc), also
+   with a negative epsI *)
 Definition exPneg : lsq QcS := Build_lsq QcS 1 1 [[qz 1]] [qz 1] None [] [] (qz (-1)).
-Theorem C12_assembly_negative_epsI_refuted :
-  exists (P : lsq QcS) (x : list Qc), wfP QcS P /\ length x = p_n QcS P /\
-    op_normal_code QcS posQ P x <> mv QcS (Nmat QcS P) x.
-Proof. exists exPneg, [qz 1]. split; [|split; [reflexivity|]].
-  - unfold wfP, wfM; simpl; repeat constructor.
-  - intros H. apply (f_equal (fun v => all2 eqQ v [qz 1])) in H. vm_compute in H. discriminate. Qed.
-Print Assumptions C12_assembly_negative_epsI_refuted.
 Example C12_assembly_nonvacuous :
-  wfP QcS exP /\ posQ (p_epsI QcS exP) = true /\ op_normal_dense QcS posQ exP = Nmat QcS exP.
-Proof. split; [|split].
+  (forall a, nzQ a = false -> a = r0 QcS) /\ (forall a, nzG a = false -> a = r0 GS) /\
+  wfP QcS exP /\ wfP QcS exPneg /\
+  all2 (all2 eqQ) (op_normal_dense QcS nzQ exP) (Nmat QcS exP) = true /\
+  all2 (all2 eqQ) (op_normal_dense QcS nzQ exPneg) [[qz 2]] = true.
+Proof. split; [exact nzQ_sound|]. split; [exact nzG_sound|]. split; [|split; [|split]].
   - unfold wfP, wfreg, wfnreg, wfM; simpl; repeat constructor.
-  - reflexivity.
-  - assert (H : all2 (all2 eqQ) (op_normal_dense QcS posQ exP) (Nmat QcS exP) = true) by (vm_compute; reflexivity).
-    revert H. generalize (op_normal_dense QcS posQ exP) (Nmat QcS exP).
-    induction l as [|r l IH]; intros [|s l'] H; simpl in *; try discriminate; auto.
-    apply andb_prop in H; destruct H. f_equal; auto using all2_eqQ_eq. Qed.
+  - unfold wfP, wfM; simpl; repeat constructor.
+  - vm_compute; reflexivity.
+  - vm_compute; reflexivity. Qed.
 
 (* RegularizedOperator / RegularizedInversion.setup: the dense VStack acts as
    the coded matvec, and its normal equations are the documented ones with
